@@ -459,6 +459,49 @@ fn atomics_skewed(env: &Env) {
     at!(usize, "usize");
 }
 
+/// "Refusal of every misaligned offset" for an atomic type the CALLER defines (16 bytes, aligned
+/// to 16, value type u64): what must be aligned is the atomic that is referenced, not the value
+/// type. Forked child: creating a misaligned reference aborts a debug build inside the library.
+#[cfg(not(any(miri, feature = "xen")))]
+fn caller_defined_atomic_alignment() {
+    use crate::common::fork::{self, Exit};
+    use crate::mon_c01::overaligned::{PaddedAtomicU64, ViaPadded};
+    use vm_memory::{GuestMemoryRegion, MemoryRegionAddress, VolatileMemory};
+    let ex = fork::run(20, || {
+        let mut report = String::new();
+        let gm = GuestMemoryMmap::<()>::from_ranges(&[(GuestAddress(0x4000), 0x2000)]).unwrap();
+        let reg = gm.iter().next().unwrap();
+        let host = reg.as_ptr() as usize;
+        let vs = reg.as_volatile_slice().unwrap();
+        for off in (0..0x120usize).chain(0x1fe0..0x2001) {
+            let fits = off + 16 <= 0x2000;
+            let want = fits && (host + off) % 16 == 0;
+            let a = vs.get_atomic_ref::<PaddedAtomicU64>(off).is_ok();
+            let b = vs.store(ViaPadded(off as u64), off, Ordering::SeqCst).is_ok();
+            let c = vs.load::<ViaPadded>(off, Ordering::SeqCst).map(|v| v.0 == off as u64).unwrap_or(false);
+            let d = reg.store(ViaPadded(1), MemoryRegionAddress(off as u64), Ordering::Release).is_ok();
+            let e = gm.load::<ViaPadded>(GuestAddress(0x4000 + off as u64), Ordering::Acquire).is_ok();
+            if [a, b, c, d, e] != [want; 5] {
+                report.push_str(&format!("offset {:#x} (address % 16 = {}): aligned+fits={} but slice.get_atomic_ref={} slice.store={} slice.load={} region.store={} guest.load={}; ", off, (host + off) % 16, want, a, b, c, d, e));
+                if report.len() > 1200 {
+                    break;
+                }
+            }
+        }
+        report.into_bytes()
+    });
+    match ex {
+        Exit::Ok(rep) if rep.is_empty() => {
+            out::key("atomic|caller-defined-16-byte-atomic|misaligned-refused", true);
+            out::eval(0x120 + 0x21);
+        }
+        Exit::Ok(rep) => v("atomic/caller-defined-atomic/misaligned-accepted-or-aligned-refused", J::s(String::from_utf8_lossy(&rep).to_string())),
+        Exit::Signal(sig) => v("atomic/caller-defined-atomic/process-aborted-inside-the-library (misaligned atomic reference created)", jobj! {"signal" => fork::signal_name(sig)}),
+        Exit::Panic(p) => v(&format!("atomic/caller-defined-atomic/panic/{}", panic_sig(&p)), J::s(p)),
+        other => out::note("C06/caller-defined-atomic-child-inconclusive", J::dbg(&other)),
+    }
+}
+
 /// The REQUESTED ORDERING of atomic store/load: store-buffering litmus on real threads. Each of two
 /// threads stores 1 to its own guest word with SeqCst and then loads the other's with SeqCst; under
 /// sequential consistency at least one of them sees the other's store. (On x86-64 a SeqCst store
@@ -791,6 +834,10 @@ pub fn run(args: &Args) {
     }
     if !cfg!(miri) {
         atomics_skewed(&env);
+    }
+    #[cfg(not(any(miri, feature = "xen")))]
+    if std::env::var("VMV_ARENA").as_deref() != Ok("heap") {
+        caller_defined_atomic_alignment();
     }
     if !cfg!(miri) {
         tearing(args.u64("tear", 200_000));
